@@ -237,7 +237,14 @@ class World(WsWorld):
         self.ops_left -= 1
         p = ep.p
         op = ch.pick(("close", "close1000", "closeReason", "closeBad", "send", "sendSync", "ping", "sendChop",
-                      "frameApi"), "appop", (4, 2, 4, 1, 3, 2, 1, 1, 1))
+                      "frameApi", "frameBegin", "frameEnd"), "appop", (4, 2, 4, 1, 3, 2, 1, 1, 1, 1, 1.5))
+        # a message begun through the frame API and ended later - possibly after the connection has started closing or is
+        # gone: the late endMessage() writes nothing.  (While it is open, whole-message sends are not legal: skipped.)
+        if getattr(ep, "stream_begun", False):
+            if op in ("send", "sendSync", "sendChop", "frameApi", "frameBegin"):
+                op = "frameEnd"
+        elif op == "frameEnd":
+            op = "ping"
         self.run.log("app", ep.name, op, ep.state_name())
         try:
             if op == "close":
@@ -280,6 +287,17 @@ class World(WsWorld):
             elif op == "frameApi":
                 p.beginMessage(True)
                 p.sendMessageFrame(b"ff")
+                p.endMessage()
+            elif op == "frameBegin":
+                if ep.state_name() == "open":
+                    p.beginMessage(True)
+                    p.sendMessageFrame(b"fb")
+                    ep.stream_begun = True
+                    self.run.probe("message-begun-and-left-open")
+            elif op == "frameEnd":
+                ep.stream_begun = False
+                if ep.state_name() != "open":
+                    self.run.probe("endMessage-after-the-connection-left-open-state")
                 p.endMessage()
         except Exception as e:
             # documented: sendMessage raises Disconnected when not open; sendClose raises
